@@ -219,7 +219,7 @@ func (e *Explorer) runPath(in *Interp, it workItem) {
 		if h.violSeen[v.ID] <= 3 {
 			h.Violations = append(h.Violations, v)
 		}
-		if e.failFast && !h.stopped && findKnown(e.known, e.prop, h.Name, v.ID) == nil {
+		if e.failFast && !h.stopped && v.ID != "data-race" && findKnown(e.known, e.prop, h.Name, v.ID) == nil {
 			// an unlisted violation decides the verdict: stop exploring this harness
 			h.stopped = true
 			h.StoppedEarly = "exploration stopped at the first violation that is not a listed known finding"
